@@ -24,7 +24,7 @@ doc = between(doc, '<!-- RULES:BEGIN -->', '<!-- RULES:END -->', '\n'.join(rules
 
 if len(sys.argv) > 1:
     rows = ['| change | property | round | what was changed (abridged) | caught by |', '|---|---|---|---|---|']
-    rnd = {'a': 1, 'b': 1, 'c': 2, 'd': 2, 'e': 3, 'f': 3, 'g': 4, 'h': 4, 'i': 5, 'j': 5, 'k': 6, 'l': 6, 'm': 7, 'n': 7, 'o': 8, 'p': 8}
+    rnd = {'a': 1, 'b': 1, 'c': 2, 'd': 2, 'e': 3, 'f': 3, 'g': 4, 'h': 4, 'i': 5, 'j': 5, 'k': 6, 'l': 6, 'm': 7, 'n': 7, 'o': 8, 'p': 8, 'q': 9, 'r': 9}
     for line in open(sys.argv[1]):
         parts = line.split()
         if len(parts) < 3 or parts[2] != 'CAUGHT':
